@@ -548,6 +548,9 @@ func (server *Server) listen(sock socket.Socket, address string, New NewServerCo
 					if svrctx.pipeline != nil {
 						svrctx.pipeline.Close()
 					}
+					for _, ctx := range svrctx.streams {
+						ctx.stream.Close()
+					}
 				}
 			}
 			return err
